@@ -93,6 +93,8 @@ def check(repo: Repo, rep: Report) -> None:
            "the drain is not scheduled exactly when this call took ownership")
     # Q4
     run = repo.fn(SO, "ScheduledObserver.run")
+    work_names = {u(s.node.targets[0]) for s in sites(run) if isinstance(s.node, ast.Assign) and isinstance(s.node.value, ast.Call)
+                  and isinstance(s.node.value.func, ast.Attribute) and s.node.value.func.attr == "pop"}
 
     def ev(n: ast.AST) -> Optional[str]:
         if isinstance(n, ast.Call) and isinstance(n.func, ast.Attribute) and n.func.attr == "pop" \
@@ -100,7 +102,7 @@ def check(repo: Repo, rep: Report) -> None:
             return "POP:" + (u(n.args[0]) if n.args else "")
         if isinstance(n, ast.Assign) and any(isinstance(t, ast.Attribute) and t.attr == "is_acquired" for t in n.targets):
             return "RELEASE" if isinstance(n.value, ast.Constant) and n.value.value is False else "ACQ?"
-        if isinstance(n, ast.Call) and isinstance(n.func, ast.Name) and n.func.id == "work":
+        if isinstance(n, ast.Call) and isinstance(n.func, ast.Name) and n.func.id in work_names:
             return "WORK"
         if isinstance(n, ast.Call) and dotted(n.func) == "self.scheduler.schedule":
             return "RESCHED"
